@@ -173,6 +173,8 @@ Proof.
   intros Ha Hb.
   destruct a as [|[|[|[|a]]]]; try lia; destruct b as [|[|[|[|b]]]]; try lia; reflexivity.
 Qed.
+Lemma adj_step (a c m : bool) : a = true -> c = true -> negb (a && c) || m = true -> m = true.
+Proof. intros -> ->. exact (fun H => H). Qed.
 Lemma ns_of_le s : ns_of s <= 2.
 Proof. destruct s as [|[|[|s]]]; simpl; lia. Qed.
 
@@ -324,7 +326,7 @@ Section Local.
                         (differ_sem nsv htv (zn (at2 region w y x)) (zn (at2 region w y' x'))) = true).
         { intros y x y' x' Hy Hx Hn Gr. pose proof (nbr4_in h w y x y' x' Hy Hx Hn) as [Hy' Hx'].
           destruct (lit (y, x) && lit (y', x')) eqn:G; [|reflexivity]. cbn [implb].
-          pose proof (HA' y x y' x' Hy Hx Hn) as HA. cbn beta in HA. rewrite G, Gr in HA. cbn [andb negb orb] in HA.
+          pose proof (adj_step _ _ _ G Gr (HA' y x y' x' Hy Hx Hn)) as HA.
           destruct (Kind _ (proj2 (Hreg y x Hy Hx))) as [s [E Ls]].
           destruct (Kind _ (proj2 (Hreg y' x' Hy' Hx'))) as [s' [E' Ls']].
           rewrite E, E' in HA. unfold differ_sem, nsv, htv. rewrite E, E'. rewrite (kinds_differ s s' Ls Ls'). exact HA. }
